@@ -162,6 +162,29 @@ fn check_feed_vec<const N: usize>() {
     let mut i = 0;
     while i < N { assert!(v[i] == items[i], "C15 collected in order"); i += 1; }
 }
+fn check_feed_source<const N: usize>() {
+    // the SOURCE is not consumed past the item after which the sink said stop
+    let items: [u32; N] = kani::any();
+    let stop: usize = kani::any();
+    kani::assume(stop <= N);
+    let mut sink = Sink::new(stop);
+    let route: u8 = kani::any();
+    let mut it = items.iter().copied();
+    {
+        let mut f = |v: u32| sink.take(v);
+        let mut cb: OpaqueCallback<u32> = (&mut f).into();
+        match route % 2 {
+            0 => { let _ = (&mut it).feed_into_mut(&mut cb); }
+            _ => { cb.extend(&mut it); }
+        }
+    }
+    let expect = feed_expect(N, stop);
+    assert!(sink.n == expect, "C15 sink invoked once per offered item");
+    assert!(it.len() == N - expect, "C15 feeding stops after the first false: the source keeps every item that was not offered");
+    if expect < N { assert!(it.next() == Some(items[expect]), "C15 the next item of the source is the first one not offered"); }
+    kani::cover!(stop < N, "stopped early");
+    kani::cover!(route % 2 == 1, "Extend route");
+}
 macro_rules! inst { ($n:ident, $u:literal, $f:ident, $l:literal) => { #[kani::proof] #[kani::unwind($u)] fn $n() { $f::<$l>(); kani::cover!(true, "reaches end"); } }; }
 //@ prefix=b_feed kind=property clause=bounded feed loop (feed_into_mut / feed_into / Extend): sink sees exactly the first min(stop+1,n) items in order, count reported, items not offered are dropped exactly once
 inst!(b_feed_0, 3, check_feed, 0);
@@ -169,6 +192,7 @@ inst!(b_feed_1, 4, check_feed, 1);
 inst!(b_feed_3, 6, check_feed, 3);
 inst!(b_feed_drop_2, 5, check_feed_drop, 2);
 inst!(b_feed_vec_2, 5, check_feed_vec, 2);
+inst!(b_feed_source_3, 6, check_feed_source, 3);
 //@thorough-begin
 inst!(b_feed_2, 5, check_feed, 2);
 inst!(b_feed_4, 7, check_feed, 4);
